@@ -279,8 +279,15 @@ func (propC17) Check(k *Kernel, cov *Coverage) *Violation {
 	}
 	for _, c := range k.Calls {
 		got := observe(c)
-		solo := &Plan{Prop: k.Plan.Prop, World: k.Plan.World, Mode: k.Plan.Mode, Clients: k.Plan.Clients, BaseSlash: k.Plan.BaseSlash,
-			SharedHTTP: k.Plan.SharedHTTP, Ops: []*Op{cloneOp(c.Op)}}
+		// alone = this call, through its own client, in a process that built no other client
+		so := cloneOp(c.Op)
+		soloClients := k.Plan.Clients
+		if so.ClientIdx >= 0 && so.ClientIdx < len(k.Plan.Clients) {
+			soloClients = [][]Opt{k.Plan.Clients[so.ClientIdx]}
+			so.ClientIdx = 0
+		}
+		solo := &Plan{Prop: k.Plan.Prop, World: k.Plan.World, Mode: k.Plan.Mode, Clients: soloClients, BaseSlash: k.Plan.BaseSlash,
+			SharedHTTP: k.Plan.SharedHTTP, Ops: []*Op{so}}
 		ks := RunPlan(soloT, k.W, solo, false)
 		if len(ks.Panics) > 0 {
 			continue
